@@ -1,6 +1,7 @@
 import YarlProofs.C12
 import YarlProofs.C12Readback
 import YarlProofs.C12Url
+import YarlProofs.C12More
 /-!
 # C12 — Query operations implement multi-dict algebra exactly   (audit layer)
 
@@ -20,9 +21,14 @@ argument denotes the pairs `ps`": a `.many` slot expands to repeated keys, `.int
 (`intToStr`), `.float txt 0` is the text Python prints, and it is `none` iff `query_var` rejects a value.
 `SingleValued items`: no slot is a list/tuple.  `GoodPairs ps` / `GoodText t`: Python strings without
 lone surrogates (a lone surrogate cannot be UTF-8 encoded; the quoter drops it: C06).
+From C12More.lean: `parseQslLit s` = the pairs a whole query STRING denotes when it is an ARGUMENT of with_query /
+extend_query (spelled out in `C12_headline_str_argument_pairs_def`); `QsMore.slotErr` / `QsMore.pairsFirstErr` = the error a
+slot / the first offending slot of a pair SEQUENCE raises (spelled out in `C12_headline_rejected_value_kinds_pairs`);
+`Reach e u` (C01Reach.lean) = `u` is obtainable through the auto-encoding API: `URL(s)` on a Python string, `URL.build(...,
+encoded=False)`, any of the modifiers (`with_path` with `encoded=False`) with Python-string arguments, `join`, copies.
 -/
 namespace Yarl
-open QsLemmas MdLemmas QueryUrl
+open QsLemmas MdLemmas QueryUrl QsMore
 
 /-! ## with_query -/
 
@@ -44,6 +50,50 @@ theorem C12_headline_with_query_pairs (e : Env) (u : Url) (items : List (Str × 
     ∃ v, withQuery e u (.pairs items) = .ok v ∧ queryPairs v = ps ∧
       v.scheme = u.scheme ∧ v.netloc = u.netloc ∧ v.path = u.path ∧ v.fragment = u.fragment :=
   C12_url_with_query_pairs' e u items ps hs hden hg
+
+/-- what `parseQslLit` is (definition of C12More.lean, by `rfl`): split the text on '&', drop empty pieces, split each
+    piece at its first '=' (no '=': the value is ""), turn '+' into ' ' in key and value — and NO percent-decoding -/
+theorem C12_headline_str_argument_pairs_def (s : Str) :
+    parseQslLit s = (splitOn 38 s).filterMap (fun nv =>
+      if nv.isEmpty then none
+      else some (plusToSpace (splitFirstEq nv).1, plusToSpace ((splitFirstEq nv).2.getD []))) := rfl
+
+/-- "with_query(q) yields exactly the pairs of q in order" — STRING argument (closes GAPS 2): `with_query("a=1&b=2")` has
+    exactly the LITERAL pairs of the string (`parseQslLit`: '+' is a space, '%' is data — the text is quoted, not requoted),
+    which are the `parse_qsl` pairs of the string when it contains no '%'; the other components are kept -/
+theorem C12_headline_with_query_str (e : Env) (u : Url) (s : Str)
+    -- excludes lone surrogates in the text, which the quoter drops (C06 "lone surrogates excepted":
+    -- `C12_headline_with_query_str_fails_for_lone_surrogate`)
+    (hs : GoodText s) :
+    ∃ v, withQuery e u (.str s) = .ok v ∧ queryPairs v = parseQslLit s ∧
+      (37 ∉ s → queryPairs v = parseQsl s) ∧   -- with a '%' FALSE: `C12_headline_with_query_str_fails_for_percent`
+      v.scheme = u.scheme ∧ v.netloc = u.netloc ∧ v.path = u.path ∧ v.fragment = u.fragment := by
+  obtain ⟨v, h1, h2, h3⟩ := C12_with_query_str_pairs e u s hs
+  exact ⟨v, h1, h2, fun h => by rw [h2, C12_parseQslLit_no_pct s h], h3⟩
+
+/-- FINDING of C12More.lean (inconsistency between the three methods, not a crash; not in KNOWN_FINDINGS): a '%XY' in a
+    STRING argument is DATA for `with_query` / `extend_query` (`"a=%41"` is stored as `a=%2541` and reads back as
+    `("a", "%41")`) but an ESCAPE for `update_query` (the string goes through `parse_qsl` first: `("a", "A")`).  So "the
+    pairs of q" of a string are not the `parse_qsl` pairs for with_query / extend_query: the lemma GAPS 2 asked for,
+    `parseQsl (QUERY_QUOTER s) = parseQsl s`, is false (`parseQslLit s ≠ parseQsl s` here).  `u` = `http://h/`, `s` = "a=%41". -/
+theorem C12_headline_with_query_str_fails_for_percent (e : Env) :
+    let u := fromParts [104, 116, 116, 112] [104] [47] [] []
+    let s : Str := [97, 61, 37, 52, 49]
+    GoodText s ∧
+    (∃ v, withQuery e u (.str s) = .ok v ∧ queryPairs v = [([97], [37, 52, 49])]) ∧
+    (∃ v, extendQuery e u (.str s) = .ok v ∧ queryPairs v = [([97], [37, 52, 49])]) ∧
+    (∃ v, updateQuery e u (.str s) = .ok v ∧ queryPairs v = [([97], [65])]) ∧
+    parseQslLit s ≠ parseQsl s :=
+  C12_str_argument_pct_differs e
+
+/-- the `GoodText` guard is needed (C06 "lone surrogates excepted"): `with_query("\ud800=1")` reads back `("", "1")` while
+    the literal pairs of the string are `("\ud800", "1")` -/
+theorem C12_headline_with_query_str_fails_for_lone_surrogate (e : Env) (u : Url) :
+    ∃ v, withQuery e u (.str [0xD800, 61, 49]) = .ok v ∧ queryPairs v = [([], [49])] ∧
+      parseQslLit [0xD800, 61, 49] = [([0xD800], [49])] := by
+  have hb : ∀ b : Backend, parseQsl (Gen.QUERY_QUOTER.run b [0xD800, 61, 49]) = [([], [49])] := by
+    intro b; cases b <;> decide +kernel
+  exact ⟨_, withQuery_of e u _ _ (QsMore.getStrQuery_str e.b _), hb e.b, by decide +kernel⟩
 
 /-! ## extend_query -/
 
@@ -69,6 +119,16 @@ theorem C12_headline_extend_query (e : Env) (u : Url) (items : List (Str × QIte
       | many vs => exact absurd (hs _ (List.mem_cons_self ..)) (by simp [QItem.isOne])
   · exact ⟨C12_url_extend_query e u items ps hden hg hne,
       fun hs => C12_url_extend_query_pairs e u items ps hs hden hg hne⟩
+
+/-- "extend_query appends q's pairs after the existing ones" — STRING argument (closes GAPS 2): the LITERAL pairs of the
+    string (`parseQslLit`, see above) are appended, whatever the old query text is; they are the `parse_qsl` pairs when
+    the string contains no '%' -/
+theorem C12_headline_extend_query_str (e : Env) (u : Url) (s : Str)
+    (hs : GoodText s) :   -- no lone surrogate in the argument (dropped by the quoter, C06)
+    ∃ v, extendQuery e u (.str s) = .ok v ∧ queryPairs v = queryPairs u ++ parseQslLit s ∧
+      (37 ∉ s → queryPairs v = queryPairs u ++ parseQsl s) := by   -- with '%': `C12_headline_with_query_str_fails_for_percent`
+  obtain ⟨v, h1, h2⟩ := C12_extend_query_str_pairs e u s hs
+  exact ⟨v, h1, h2, fun h => by rw [h2, C12_parseQslLit_no_pct s h]⟩
 
 /-! ## update_query -/
 
@@ -105,7 +165,7 @@ theorem C12_headline_update_keeps_others (e : Env) (u : Url) (items : List (Str 
 theorem C12_headline_update_replaces (e : Env) (u : Url) (items : List (Str × QItem)) (ps : List (Str × Str))
     (k : Str) (hs : SingleValued items) (hden : expandItems items = some ps) (hg : GoodPairs ps)
     (hold : GoodPairs (queryPairs u)) (hk : k ∈ keysOf ps)
-    -- excludes the stale-duplicate case of multidict's update(): `C12_headline_update_replaces_fails_for`
+    -- excludes the stale-duplicate case of multidict's update() (F-C12-multidict-tail): `C12_headline_update_replaces_fails_for`
     (htail : ∀ k' ∈ keysOf ps, k' ≠ k →
       ((queryPairs u).filter (fun p => p.1 = k')).length ≤ (ps.filter (fun p => p.1 = k')).length) :
     ∃ v, updateQuery e u (.pairs items) = .ok v ∧
@@ -122,13 +182,135 @@ theorem C12_headline_update_replaces_unguarded (e : Env) (u : Url) (items : List
         S.Sublist ((((queryPairs u).filter (fun p => p.1 = k)).map (·.2)).drop (ps.filter (fun p => p.1 = k)).length) :=
   C12_url_update_sets_keys_split e u items ps k hs hden hg hold hk
 
-/-- KNOWN FINDING (multidict 6.2 `update()`, C and Python implementation): `?a=1&a=2&b=3&b=4` updated with
+/-- KNOWN FINDING F-C12-multidict-tail (multidict 6.2 `update()`, C and Python implementation): `?a=1&a=2&b=3&b=4` updated with
     `a=9&b=8` gives `a=9&b=8&b=4` — the stale `b=4` survives; so "replaces all pairs" is false as stated -/
 theorem C12_headline_update_replaces_fails_for :
     mdUpdate [([97], 1), ([97], 2), ([98], 3), ([98], 4)] [([97], 9), ([98], 8)] = [([97], 9), ([98], 8), ([98], 4)] ∧
     ¬ ∀ (old new : List (Str × Nat)) (k : Str), k ∈ keysOf new →
       ((mdUpdate old new).filter (fun p => p.1 = k)).map (·.2) = (new.filter (fun p => p.1 = k)).map (·.2) :=
   ⟨C12_update_sets_keys_counterexample, C12_update_sets_keys_false⟩
+
+/-- "keeps every other pair in order" for a MAPPING with single values and for a STRING argument (closes the last sentence
+    of GAPS 4: the composition of C12_headline_update_is_multidict_update with the list-level clause, written down) -/
+theorem C12_headline_update_keeps_others_mapping_str (e : Env) (u : Url) (items : List (Str × QItem))
+    (ps : List (Str × Str)) (s : Str)
+    (hold : GoodPairs (queryPairs u)) :   -- old pairs are re-rendered (lone surrogate lost); true for reachable URLs: C12_headline_reachable_good_pairs
+    (SingleValued items → expandItems items = some ps → GoodPairs ps → ps ≠ [] →
+      ∃ v, updateQuery e u (.mapping items) = .ok v ∧
+        (queryPairs v).filter (fun p => !(keysOf ps).contains p.1) =
+          (queryPairs u).filter (fun p => !(keysOf ps).contains p.1)) ∧
+    (GoodText s → s ≠ [] →
+      ∃ v, updateQuery e u (.str s) = .ok v ∧
+        (queryPairs v).filter (fun p => !(keysOf (parseQsl s)).contains p.1) =
+          (queryPairs u).filter (fun p => !(keysOf (parseQsl s)).contains p.1)) :=
+  ⟨fun hs hden hg hne => C12_url_update_keeps_others_mapping e u items ps hs hden hg hold hne,
+   fun hs hne => C12_url_update_keeps_others_str e u s hs hold hne⟩
+
+/-- "replaces all pairs whose key occurs in q" for a MAPPING with single values and for a STRING argument (read by
+    `parse_qsl`): GUARDED form (no other updated key has more old entries than new ones — F-C12-multidict-tail) and the
+    unguarded "new values first, then a sublist of the not overwritten old values" form, as for pair sequences -/
+theorem C12_headline_update_replaces_mapping_str (e : Env) (u : Url) (items : List (Str × QItem))
+    (ps : List (Str × Str)) (s : Str) (k : Str)
+    (hold : GoodPairs (queryPairs u)) :   -- as above
+    (SingleValued items → expandItems items = some ps → GoodPairs ps → k ∈ keysOf ps →
+      ∃ v, updateQuery e u (.mapping items) = .ok v ∧
+        ((∀ k' ∈ keysOf ps, k' ≠ k →   -- excludes multidict's stale duplicate, F-C12-multidict-tail
+            ((queryPairs u).filter (fun p => p.1 = k')).length ≤ (ps.filter (fun p => p.1 = k')).length) →
+          ((queryPairs v).filter (fun p => p.1 = k)).map (·.2) = (ps.filter (fun p => p.1 = k)).map (·.2)) ∧
+        ∃ S, ((queryPairs v).filter (fun p => p.1 = k)).map (·.2) = (ps.filter (fun p => p.1 = k)).map (·.2) ++ S ∧
+          S.Sublist ((((queryPairs u).filter (fun p => p.1 = k)).map (·.2)).drop (ps.filter (fun p => p.1 = k)).length)) ∧
+    (GoodText s → k ∈ keysOf (parseQsl s) →
+      ∃ v, updateQuery e u (.str s) = .ok v ∧
+        ((∀ k' ∈ keysOf (parseQsl s), k' ≠ k →   -- F-C12-multidict-tail
+            ((queryPairs u).filter (fun p => p.1 = k')).length ≤ ((parseQsl s).filter (fun p => p.1 = k')).length) →
+          ((queryPairs v).filter (fun p => p.1 = k)).map (·.2) = ((parseQsl s).filter (fun p => p.1 = k)).map (·.2)) ∧
+        ∃ S, ((queryPairs v).filter (fun p => p.1 = k)).map (·.2) =
+            ((parseQsl s).filter (fun p => p.1 = k)).map (·.2) ++ S ∧
+          S.Sublist ((((queryPairs u).filter (fun p => p.1 = k)).map (·.2)).drop
+            ((parseQsl s).filter (fun p => p.1 = k)).length)) :=
+  ⟨fun hs hden hg hk => C12_url_update_sets_keys_mapping e u items ps k hs hden hg hold hk,
+   fun hs hk => C12_url_update_sets_keys_str e u s k hs hold hk⟩
+
+/-! ### update_query with a MAPPING whose values may be lists / tuples (closes GAPS 4) -/
+
+/-- `update_query(mapping)` with list/tuple values SUCCEEDS whenever the mapping denotes pairs, and the result is the
+    expansion of the SLOT-level update: `strItems old` = the old pairs as single-valued slots, `mdUpdate` acts on slots
+    (a list value is ONE slot), the updated slot list is then expanded.  (It is NOT `mdUpdate` on the expanded pairs:
+    C12_url_update_query_lists_differ.)  No hypothesis on the result. -/
+theorem C12_headline_update_mapping_lists (e : Env) (u : Url) (items : List (Str × QItem)) (ps : List (Str × Str))
+    (hden : expandItems items = some ps)   -- the mapping denotes pairs (no rejected value)
+    (hg : GoodPairs ps)                    -- no lone surrogate in the argument (C06)
+    (hold : GoodPairs (queryPairs u))      -- nor in the old query (re-rendered); true for reachable URLs
+    (hne : items ≠ []) :                   -- an empty mapping is a different code path (no-op), see C12_url_none_and_empty
+    ∃ v ps', updateQuery e u (.mapping items) = .ok v ∧ queryPairs v = ps' ∧
+      expandItems (mdUpdate (strItems (queryPairs u)) items) = some ps' :=
+  C12_url_update_query_lists e u items ps hden hg hold hne
+
+/-- "update_query … keeps every other pair in order", mapping with list/tuple values: the pairs whose key is not a key OF
+    THE MAPPING are unchanged.  (A key mapped to the empty list IS a key of the mapping: its pairs are removed —
+    `C12_headline_update_empty_list_removes`.) -/
+theorem C12_headline_update_mapping_lists_keeps_others (e : Env) (u : Url) (items : List (Str × QItem))
+    (ps : List (Str × Str))
+    (hden : expandItems items = some ps) (hg : GoodPairs ps) (hold : GoodPairs (queryPairs u)) (hne : items ≠ []) :   -- as above
+    ∃ v, updateQuery e u (.mapping items) = .ok v ∧
+      (queryPairs v).filter (fun p => !(keysOf items).contains p.1) =
+        (queryPairs u).filter (fun p => !(keysOf items).contains p.1) :=
+  C12_url_update_lists_keeps_others e u items ps hden hg hold hne
+
+/-- "update_query replaces all pairs whose key occurs in q", mapping with list/tuple values — GUARDED as
+    C12_headline_update_replaces: the pairs of `k` in the result are exactly the pairs the mapping denotes for `k`, in order -/
+theorem C12_headline_update_mapping_lists_replaces (e : Env) (u : Url) (items : List (Str × QItem))
+    (ps : List (Str × Str)) (k : Str)
+    (hden : expandItems items = some ps) (hg : GoodPairs ps) (hold : GoodPairs (queryPairs u))   -- as above
+    (hk : k ∈ keysOf items)
+    -- every OTHER key of the mapping has at most as many old pairs as it has slots in the mapping (for a `dict`: occurs at
+    -- most once in the old query); excludes F-C12-multidict-tail: `C12_headline_update_mapping_lists_replaces_fails_for_stale_duplicate`
+    (htail : ∀ k' ∈ keysOf items, k' ≠ k →
+      ((queryPairs u).filter (fun p => p.1 = k')).length ≤ (items.filter (fun p => p.1 = k')).length) :
+    ∃ v, updateQuery e u (.mapping items) = .ok v ∧
+      (queryPairs v).filter (fun p => p.1 = k) = ps.filter (fun p => p.1 = k) :=
+  C12_url_update_lists_sets_keys e u items ps k hden hg hold hk htail
+
+/-- … and WITHOUT the guard: the denoted pairs of `k` come first (stale old pairs of `k` may follow) -/
+theorem C12_headline_update_mapping_lists_replaces_unguarded (e : Env) (u : Url) (items : List (Str × QItem))
+    (ps : List (Str × Str)) (k : Str)
+    (hden : expandItems items = some ps) (hg : GoodPairs ps) (hold : GoodPairs (queryPairs u)) (hk : k ∈ keysOf items) :
+    ∃ v, updateQuery e u (.mapping items) = .ok v ∧
+      ps.filter (fun p => p.1 = k) <+: (queryPairs v).filter (fun p => p.1 = k) :=
+  C12_url_update_lists_sets_keys_prefix e u items ps k hden hg hold hk
+
+/-- KNOWN FINDING F-C12-multidict-tail with list values: `?a=1&a=2&b=3&b=4` updated with `{"a": [9], "b": [8]}` reads
+    `a=9&b=8&b=4` — the guard `htail` is needed -/
+theorem C12_headline_update_mapping_lists_replaces_fails_for_stale_duplicate (e : Env) :
+    let u := fromParts [] [] [] [97, 61, 49, 38, 97, 61, 50, 38, 98, 61, 51, 38, 98, 61, 52] []
+    ∃ v, updateQuery e u (.mapping [([97], .many [.int 9]), ([98], .many [.int 8])]) = .ok v ∧
+      queryPairs v = [([97], [57]), ([98], [56]), ([98], [52])] :=
+  C12_url_update_lists_sets_keys_needs_guard e
+
+/-- `update_query({"c": []})` on `?a=1&c=2&c=3` removes every pair of key "c" (the empty list is a slot that denotes no pair) -/
+theorem C12_headline_update_empty_list_removes (e : Env) :
+    let u := fromParts [] [] [] [97, 61, 49, 38, 99, 61, 50, 38, 99, 61, 51] []
+    ∃ v, updateQuery e u (.mapping [([99], .many [])]) = .ok v ∧ queryPairs v = [([97], [49])] :=
+  C12_update_query_empty_list_removes e
+
+/-! ### the guard `GoodPairs (queryPairs u)` holds for every URL obtained through the auto-encoding API (closes GAPS 7) -/
+
+/-- the stored query of a reachable URL (`Reach`, see the reading guide) is ASCII text, so the pairs read from it are Python
+    strings without lone surrogates: this discharges the hypothesis `hold` of every theorem of this file -/
+theorem C12_headline_reachable_good_pairs (e : Env) (u : Url)
+    (hr : Reach e u) :   -- excludes `encoded=True` constructions (where `?\ud800=1` is possible: `surrUrl`)
+    GoodPairs (queryPairs u) :=
+  C12_constructor_goodpairs e u hr
+
+/-- instance: C12_headline_update_is_multidict_update for reachable URLs, without a hypothesis on the old query -/
+theorem C12_headline_update_is_multidict_update_reachable (e : Env) (u : Url) (hr : Reach e u)
+    (items : List (Str × QItem)) (ps : List (Str × Str)) (s : Str) :
+    (SingleValued items → expandItems items = some ps → GoodPairs ps → ps ≠ [] →
+      (∃ v, updateQuery e u (.pairs items) = .ok v ∧ queryPairs v = mdUpdate (queryPairs u) ps) ∧
+      (∃ v, updateQuery e u (.mapping items) = .ok v ∧ queryPairs v = mdUpdate (queryPairs u) ps)) ∧
+    (GoodText s → s ≠ [] →
+      ∃ v, updateQuery e u (.str s) = .ok v ∧ queryPairs v = mdUpdate (queryPairs u) (parseQsl s)) :=
+  C12_reach_update_is_multidict_update e u hr items ps s
 
 /-! ## without_query_params -/
 
@@ -145,6 +327,15 @@ theorem C12_headline_without_query_params_fails_for (e : Env) :
     ∃ v, withoutQueryParams e surrUrl [[98]] = .ok v ∧ queryPairs v = [([], [49])] ∧
       (queryPairs surrUrl).filter (fun p => ![[98]].contains p.1) = [([0xD800], [49])] :=
   C12_url_without_query_params_needs_good_old e
+
+/-- instance: "without_query_params removes exactly the named keys" for reachable URLs (closes GAPS 7 for this clause): no
+    hypothesis on the old query -/
+theorem C12_headline_without_query_params_reachable (e : Env) (u : Url)
+    (hr : Reach e u)   -- obtained through the auto-encoding API (see the reading guide)
+    (names : List Str) :
+    ∃ v, withoutQueryParams e u names = .ok v ∧
+      queryPairs v = (queryPairs u).filter (fun p => !names.contains p.1) :=
+  C12_reach_without_query_params e u hr names
 
 /-! ## None, rejected values -/
 
@@ -176,6 +367,57 @@ theorem C12_headline_rejects_values (e : Env) (u : Url) (items : List (Str × QI
   | error er => rw [hg] at hw; cases hw; rfl
   | ok x => rw [hg] at hw; cases hw
 
+/-- the per-slot gate of a pair SEQUENCE (`QsMore.slotErr`, C12More.lean): bool / None / any other type → TypeError,
+    NaN / ±inf → ValueError, a nested list/tuple → TypeError (whatever it contains); str, int and finite float are
+    accepted.  `QsMore.pairsFirstErr items` is `slotErr` of the first slot that has one. -/
+theorem C12_headline_rejected_value_kinds_pairs :
+    slotErr (.one .bool) = some .typeError ∧ slotErr (.one .none) = some .typeError ∧
+    slotErr (.one .other) = some .typeError ∧
+    (∀ t k, k ≠ 0 → slotErr (.one (.float t k)) = some .valueError) ∧
+    (∀ vs, slotErr (.many vs) = some .typeError) ∧
+    (∀ s, slotErr (.one (.str s)) = none) ∧ (∀ n, slotErr (.one (.int n)) = none) ∧
+    (∀ t, slotErr (.one (.float t 0)) = none) :=
+  C12_slotErr_kinds
+
+/-- "bool, None values, NaN/inf … are rejected" — pair SEQUENCE argument, all three methods (closes GAPS 6, first part):
+    `with_query` and `extend_query` raise the error of the first offending pair; `update_query` FAILS too — it renders the
+    UPDATED multidict, so it raises the error of the first offending pair in THAT order, always the error of one of the
+    offending pairs of the argument (they can differ: `C12_headline_update_query_error_order`) -/
+theorem C12_headline_rejects_values_pairs (e : Env) (u : Url) (items : List (Str × QItem)) (err : PyErr)
+    (h : pairsFirstErr items = some err) :   -- some slot is rejected; `err` is the error of the first such slot
+    withQuery e u (.pairs items) = .error err ∧ extendQuery e u (.pairs items) = .error err ∧
+    ∃ err', updateQuery e u (.pairs items) = .error err' ∧
+      pairsFirstErr (mdUpdate (strItems (queryPairs u)) items) = some err' ∧
+      ∃ p ∈ items, slotErr p.2 = some err' :=
+  C12_pairs_bad_value_rejected e u items err h
+
+/-- … `update_query` with a MAPPING argument (list/tuple values allowed; closes GAPS 6, second part): a rejected value
+    anywhere in the mapping makes the call FAIL, with the error of one of the offending values (the first one in the order
+    of the updated multidict) -/
+theorem C12_headline_update_query_rejects_values_mapping (e : Env) (u : Url) (items : List (Str × QItem)) (err : PyErr)
+    (h : firstErr (flatVals items) = some err) :   -- some value (list slots included) is rejected by `query_var`
+    ∃ err', updateQuery e u (.mapping items) = .error err' ∧
+      firstErr (flatVals (mdUpdate (strItems (queryPairs u)) items)) = some err' ∧
+      ∃ v ∈ flatVals items, queryVar v = .error err' :=
+  C12_update_query_mapping_bad_value_rejected e u items err h
+
+/-- … so when all offending values are of ONE kind, `update_query` raises exactly that kind (sequence and mapping) -/
+theorem C12_headline_update_query_rejects_same_kind (e : Env) (u : Url) (items : List (Str × QItem)) (err : PyErr) :
+    ((∃ p ∈ items, slotErr p.2 = some err) → (∀ p ∈ items, slotErr p.2 = none ∨ slotErr p.2 = some err) →
+      updateQuery e u (.pairs items) = .error err) ∧
+    ((∃ v ∈ flatVals items, queryVar v = .error err) → (∀ v ∈ flatVals items, ∀ e', queryVar v = .error e' → e' = err) →
+      updateQuery e u (.mapping items) = .error err) :=
+  ⟨C12_update_query_pairs_bad_kind e u items err, C12_update_query_mapping_bad_kind e u items err⟩
+
+/-- the order effect (why `update_query` gets "one of the offending values", not "the first"): on `?b=1&a=2`,
+    `[("a", True), ("b", float("nan"))]` is rejected with TypeError by with_query (first offending pair: the bool) but
+    with ValueError by update_query (the updated multidict is `b=nan, a=True`).  Both are within "TypeError/ValueError". -/
+theorem C12_headline_update_query_error_order (e : Env) :
+    let u := fromParts [] [] [] [98, 61, 49, 38, 97, 61, 50] []
+    let items : List (Str × QItem) := [([97], .one .bool), ([98], .one (.float [110, 97, 110] 2))]
+    withQuery e u (.pairs items) = .error .typeError ∧ updateQuery e u (.pairs items) = .error .valueError :=
+  C12_update_query_error_order e
+
 /-- "… and bytes are rejected" (TypeError), and whatever fails fails with TypeError or ValueError only -/
 theorem C12_headline_rejects_bytes (e : Env) (u : Url) (a : QArg) (err : PyErr) :
     (withQuery e u (.bytes false) = .error .typeError ∧ extendQuery e u (.bytes false) = .error .typeError ∧
@@ -195,29 +437,48 @@ GAPS:
  1. "the argument is never mutated": NOT expressible in the model (arguments are immutable Lean values);
     no theorem.  Covered only by the differential/mutation harness (C08 treats URL immutability, not
     argument immutability).
- 2. String arguments: `with_query("a=1&b=2")` and `extend_query("…")` — no theorem says which pairs the
-    result has (only the empty string and `update_query(str)` are covered).  Needed: `parseQsl
-    (QUERY_QUOTER s) = parseQsl s` for GoodText s (C02 has the byte-level fact `pctDecodeQs …`, not this).
+ 2. CLOSED by C12_with_query_str_pairs, C12_extend_query_str_pairs, C12_parseQslLit_no_pct, C12_str_argument_pct_differs
+    (C12More.lean), see C12_headline_with_query_str, C12_headline_extend_query_str, C12_headline_str_argument_pairs_def,
+    C12_headline_with_query_str_fails_for_percent.  For every string without lone surrogates `with_query(s)` has exactly, and
+    `extend_query(s)` appends exactly, the LITERAL pairs of `s` (split on '&' and the first '=', '+' → ' ', '%' is data); these
+    are the `parse_qsl` pairs whenever `s` contains no '%'.  The lemma this item asked for, `parseQsl (QUERY_QUOTER s)
+    = parseQsl s`, is FALSE for strings with percent escapes (proved instead: `= parseQslLit s`, C12_parseQsl_quote) — so for a
+    string argument with_query / extend_query ("%41" is the text "%41") and update_query ("%41" is "A") disagree: a finding of
+    C12More.lean that is not (yet) in KNOWN_FINDINGS.  (Also in C12More.lean, not restated here: `URL.build(query_string=…)` /
+    `build(query=…)` — C12_build_query_string_pairs, C12_build_query_pairs.)
  3. "floats are rendered by str()": `str(float)` is an INPUT of the model (`QVal.float txt kind`); only the
     finite/NaN/inf classification is modelled.  Ints: `intToStr` is proved nowhere to equal Python's
     `str(int)` beyond its definition (sign + decimal digits).
- 4. update_query with a mapping containing list/tuple values: only `C12_url_update_query_mapping_lists`
-    (result = expansion of the slot-level update, hypothesis on the RESULT), and
-    `C12_url_update_query_lists_differ` showing it is not `mdUpdate` on expanded pairs.  The clauses
-    "keeps every other pair" / "replaces" are not stated for that case.  They are also stated at URL level
-    only for `.pairs`; for `.mapping`/`.str` they follow from C12_headline_update_is_multidict_update +
-    the list-level C12_update_keeps_others / C12_update_sets_keys, composition not written.
+ 4. CLOSED by C12_url_update_query_lists, C12_url_update_lists_keeps_others, C12_url_update_lists_sets_keys,
+    C12_url_update_lists_sets_keys_prefix, C12_url_update_lists_sets_keys_needs_guard, C12_url_update_keeps_others_mapping,
+    C12_url_update_sets_keys_mapping, C12_url_update_keeps_others_str, C12_url_update_sets_keys_str (C12More.lean), see
+    C12_headline_update_mapping_lists, …_lists_keeps_others, …_lists_replaces, …_lists_replaces_unguarded,
+    …_lists_replaces_fails_for_stale_duplicate, C12_headline_update_empty_list_removes, C12_headline_update_keeps_others_mapping_str,
+    C12_headline_update_replaces_mapping_str.  update_query with a mapping containing list/tuple values succeeds whenever the
+    mapping denotes pairs (no hypothesis on the result any more), "keeps every other pair" holds for the keys not IN THE MAPPING,
+    "replaces" holds under the same no-stale-duplicate guard as for sequences (prefix form without it); and the two clauses are
+    now stated at URL level for `.mapping` (single values) and `.str` too.
  5. "replaces all pairs whose key occurs in q" is FALSE in general (multidict stale duplicate); proved
-    only under the no-tail guard, plus the unguarded prefix/sublist description.
- 6. Rejected values: "the call fails" is proved for with_query / extend_query with a MAPPING argument.
-    For a pair SEQUENCE with a bad single value, and for update_query with any bad value, only "if it
-    fails, the error is TypeError/ValueError" is proved — not that it fails.  `bool` etc. as KEYS, and
+    only under the no-tail guard, plus the unguarded prefix/sublist description.  (= F-C12-multidict-tail; now also for
+    list-valued mappings, `.mapping` and `.str` arguments.)
+ 6. PARTLY CLOSED by C12_pairs_bad_value_rejected, C12_update_query_mapping_bad_value_rejected, C12_update_query_pairs_bad_kind,
+    C12_update_query_mapping_bad_kind, C12_slotErr_kinds (C12More.lean), see C12_headline_rejects_values_pairs,
+    C12_headline_update_query_rejects_values_mapping, C12_headline_update_query_rejects_same_kind,
+    C12_headline_rejected_value_kinds_pairs, C12_headline_update_query_error_order.  "The call FAILS" is now proved for a pair
+    SEQUENCE with a bad value (all three methods) and for update_query with a mapping; with_query / extend_query raise the
+    error of the FIRST offending value, update_query the error of ONE of the offending values (the first in the order of the
+    updated multidict; exactly determined when all offending values are of one kind).  STILL OPEN: `bool` etc. as KEYS, and
     non-str keys, are not modelled (keys are `Str`).
- 7. without_query_params / update_query need `GoodPairs (queryPairs u)` (old query free of lone
-    surrogates); always true for auto-encoded URLs, but that implication (constructor result ⇒
-    GoodText u.query, from C01 ASCII-ness) is not written down as a theorem.
+ 7. CLOSED by C12_constructor_goodpairs, C12_reach_without_query_params, C12_reach_update_is_multidict_update (C12More.lean,
+    via C01_reachable_wf), see C12_headline_reachable_good_pairs, C12_headline_without_query_params_reachable,
+    C12_headline_update_is_multidict_update_reachable.  `GoodPairs (queryPairs u)` holds for every URL in `Reach e` (constructor
+    on a Python string, build(encoded=False), every auto-encoding modifier, join, copies), so the hypothesis `hold` of every
+    theorem above is discharged for them (the remaining `_reach_` instances — keeps_others, replaces, lists — are in
+    C12More.lean: C12_reach_update_keeps_others, C12_reach_update_replaces, C12_reach_update_lists).
  8. `mdUpdate` is a hand model of multidict 6.2 `_update_items` (checked by the differential harness); there
     is no proof link to multidict's source.  kwargs-vs-positional conflicts (`.noArgs`, both given) are
     modelled only as `.noArgs → ValueError`.
+ 9. NEW.  `Reach` does not contain URLs made or modified with `encoded=True` (`URL(s, encoded=True)`, `build(encoded=True)`,
+    `with_path(…, encoded=True)`); for those no theorem discharges `hold` (and for `URL(s, encoded=True)` it can fail: `surrUrl`).
 -/
 end Yarl
